@@ -24,10 +24,15 @@ def run_case(case, root):
     d = root / case["id"]
     (d / "out").mkdir(parents=True)
     shutil.copytree(REPO / "py_ecc", d / "py_ecc")
-    if case.get("transform") == "unparse":
+    if case.get("transform"):
         import ast
+        from .treetwins import TRANSFORMS
         for f in (d / "py_ecc").rglob("*.py"):
-            f.write_text(ast.unparse(ast.parse(f.read_text())) + "\n")
+            tree = ast.parse(f.read_text())
+            tr = TRANSFORMS[case["transform"]]
+            if tr is not None:
+                tree = ast.fix_missing_locations(tr(tree))
+            f.write_text(ast.unparse(tree) + "\n")
     for ed in case["edits"]:
         f = d / ed["file"]
         s = f.read_text()
